@@ -34,6 +34,7 @@ def op? (s : String) : Option Op :=
   | ["write", p, d] => do pure (.write p (← list? nat? d))
   | ["sync", p] => some (.sync p)
   | ["rename", a, b] => some (.rename a b)
+  | ["unlink", p] => some (.unlink p)
   | _ => none
 
 open Shutter.Wire in
